@@ -118,6 +118,19 @@ Fixpoint faults (js : list nat) (s : st) : st :=
   | j :: r => faults r (crash j (recover_writes s) s)
   end.
 
+(* ---- first start. insertGenesisBlock: gen*GenesisBlock commits the genesis state, then hash index,
+   height index, verify hash, head record (the head record LAST since /repo 672c8b4; before that the
+   verify hash came after it). initBlockChain: no head record => insertGenesisBlock, else
+   ensureChainConsistency. ---- *)
+Definition genesis_writes (g : block) : list write :=
+  [WState (root g); WPutHash g; WPutHeight g; WPutV (height g) (hash g); WCur g].
+
+Definition st0 : st :=
+  mkS (fun _ => None) (fun _ => None) (fun _ => None) None None None (fun _ => false) (fun _ => false).
+
+Definition boot (g : block) (s : st) : st :=
+  match cur s with None => apply (genesis_writes g) s | Some _ => recover s end.
+
 (* ---- removeFromCommonAncestor: for height := latest.Height; height > anc.Height; height-- ---- *)
 Fixpoint rfca (fuel : nat) (s : st) (anc_h ht : N) : list write :=
   match fuel with
